@@ -89,7 +89,8 @@ class PandasModel:
                 interp.emit('column_read', node, frame=base, col=cval(idx), known=c is not None, have=list(cols) if cols else None)
                 out = (c if c is not None else AV()).w(ty='Series' if ty == 'DataFrame' else 'int', deps=d, col=cval(idx),
                                                        view_of=base.store, store=base.store if ty == 'DataFrame' else None,
-                                                       row_sorted_by=base.frame_sorted_by)
+                                                       row_sorted_by=base.frame_sorted_by,
+                                                       row_var=node.value.id if (ty == 'Row' and isinstance(node, ast.Subscript) and isinstance(node.value, ast.Name)) else None)
                 return out
             if idx.ty == 'list' and idx.elts is not None and all(has_const(e) for e in idx.elts):
                 names = [cval(e) for e in idx.elts]
@@ -111,7 +112,11 @@ class PandasModel:
     def store_subscript_ext(self, interp, st, frame, target, base, idx, value, aug):
         if base.ty in ('DataFrame', 'Row') and has_const(idx) and isinstance(cval(idx), str):
             cols = dict(base.cols or {})
-            v = value.only('idx', 'at', 'geo', 'mono', 'taint', 'inner', 'deps').w(ty='Series' if base.ty == 'DataFrame' else 'int')
+            v = value.only('idx', 'at', 'geo', 'mono', 'taint', 'inner', 'deps', 'role').w(ty='Series' if base.ty == 'DataFrame' else 'int')
+            if base.ty == 'Row' and value.col is not None and isinstance(target.value, ast.Name):
+                src = value.row_var
+                if src is not None and src != target.value.id:
+                    v = v.w(role=f'copied:{src}')
             cols[cval(idx)] = v
             interp.emit('column_write', target, frame=base, col=cval(idx), value=value, aug=aug)
             self.rebind(interp, st, frame, target.value, base.w(cols=cols))
